@@ -468,7 +468,10 @@ def expected_classes(code: str, file_cls):
     if code == "F":
         return {"bad"}
     if code in ("E", "X"):
-        return {"ok", "bad"}      # a suite-level error has no failing test case today (C20/F5); tolerate a repair
+        # a suite-level error has no failing test case today (C20/F5); tolerate a repair.  (phase 6 G) If every test case
+        # of the pair is skipped (e.g. --include-fields selects nothing) and the failure is suite-level only (sequence
+        # step with a differing mesh), file mode's own report of that pair is all-skipped too: accept what file mode shows
+        return {"ok", "bad"} | ({"skip"} if file_cls == "skip" else set())
     if code in ("MS", "MR"):
         return {"bad"}
     return {"skip"}               # ms mr U D
